@@ -94,6 +94,12 @@ def solve_text(args):
     """Worker: returns dict(status, backend, ms, model, detail)."""
     text, seed, refute = args[:3]
     cli = args[3] if len(args) > 3 else True
+    if cli and "str.replace" in text:
+        # string VCs with replace: z3's sequence solver burns its whole resource budget on them, cvc5 decides them in milliseconds
+        t0 = time.time()
+        out = _cli(["/usr/bin/cvc5", "--strings-exp", f"--tlimit={CLI_TIMEOUT_S * 1000}"], "(set-logic ALL)\n" + text, CLI_TIMEOUT_S)
+        if out == "unsat":
+            return dict(status="discharged", backend="cvc5-1.0.3", ms=(time.time() - t0) * 1000, model=None, detail="")
     try:
         res, ms, mt, reason = _fresh_check(text, Z3_TIMEOUT_MS, seed)
     except z3.Z3Exception as ex:
